@@ -245,6 +245,20 @@ def gen_s4():
                                     [("let", "q", B("+", B(".", SYM("mod"), SYM(n2)), I(1))), ("let", "z", SYM(n4))])),
                       ("let", "r", ("copy", SYM("m"), []))]
                 yield ("s4/module-scope", n1, n2, n4), st
+    # P3b: function and module values compared: a value equals itself (under any name) and nothing else
+    one = I(1)
+    fdefs = [("let", "f", ("func", ["x"], B("+", SYM("x"), one))), ("let", "g", ("func", ["x"], B("+", SYM("x"), I(2)))), ("let", "h", SYM("f")),
+             ("let", "k", ("func", ["y"], B("+", SYM("y"), one))),
+             ("let", "m", ("module", [("a", one)], None, [("let", "b", B(".", SYM("mod"), SYM("a")))])),
+             ("let", "n", ("module", [("a", one)], None, [("let", "b", B("+", B(".", SYM("mod"), SYM("a")), one))]))]
+    cmps = [("f", "g"), ("f", "h"), ("f", "f"), ("g", "f"), ("f", "k"), ("m", "n"), ("m", "m"), ("h", "g")]
+    for a, b in cmps:
+        yield ("s4/callable-equality", "==", a, b), fdefs + [("let", "r", B("==", SYM(a), SYM(b)))]
+        yield ("s4/callable-equality", "!=", a, b), fdefs + [("let", "r", B("!=", SYM(a), SYM(b)))]
+        yield ("s4/callable-equality", "in-list", a, b), fdefs + [("let", "r", B("in", SYM(a), L(SYM(b))))]
+        yield ("s4/callable-equality", "in-list-second", a, b), fdefs + [("let", "r", B("in", SYM(a), L(SYM("k"), SYM(b))))]
+        yield ("s4/callable-equality", "inside-tuple", a, b), fdefs + [("let", "r", B("==", T(("v", SYM(a))), T(("v", SYM(b)))))]
+        yield ("s4/callable-equality", "inside-list", a, b), fdefs + [("let", "r", B("==", L(SYM(a)), L(SYM(b))))]
     # P4: format `item` scope
     for n1 in ["item", "x"]:
         for n2 in ["item", "x"]:
